@@ -23,7 +23,7 @@ import common
 import splfaults
 import splgen
 
-JUDGE = os.path.join(common.CACHE, "judge_build", "judge")
+JUDGE = os.environ.get("SEM_JUDGE") or os.path.join(common.CACHE, "judge_build", "judge")
 IMPL = os.path.join(common.TARGET, "debug", "dump_sem")
 
 PMSG = ["MissingOpening", "MissingClosing", "MissingTrailingSemic", "UnexpectedCharacters", "ExpectedToken",
@@ -226,6 +226,12 @@ def main():
         inj_hist[kind] += 1
         docs.append(("fault", render(splgen.flatten(p), rng, comments=rng.choice([0.0, 0.08, 0.3])), kind))
         i += 1
+    for _ in range(int(n * 0.01)):
+        prog = well_typed(rng, ndecls=rng.randrange(1, 4))
+        inj = rng.choice(splfaults.PROBES)
+        r = splfaults.inject(prog, rng, inj)
+        if r is not None:
+            docs.append(("probe", render(splgen.flatten(r[0]), rng), inj.__name__ + ":" + r[1]))
     for _ in range(int(n * 0.12)):
         prog, _ = splgen.well_typed_program(rng, ndecls=rng.randrange(1, 4))
         r = splfaults.inject(prog, rng)
@@ -297,6 +303,39 @@ def main():
         ids = sorted(odd[k], key=lambda i: len(texts[i]))
         i = ids[0]
         print("  ODD expected %s: %d cases; shortest %r -> %s" % (k, len(ids), texts[i], read_errors(impl[i])))
+
+    # rule probes (no dedicated message): report what the implementation says
+    probes = collections.defaultdict(collections.Counter)
+    for i, d in enumerate(docs):
+        if d[0] == "probe":
+            errs = read_errors(impl[i])
+            probes[d[2]][str(None if errs is None else sorted(e[2][0] for e in errs))] += 1
+    for k in sorted(probes):
+        print("  PROBE %s: implementation diagnostics %s" % (k, dict(probes[k])))
+
+    # every diagnostic that is built by Identifier::to_error must cover exactly the name it quotes
+    named = set(["UndefinedType", "NotAType", "RedeclarationAsType", "MustBeAReferenceParameter",
+                 "RedeclarationAsProcedure", "RedeclarationAsParameter", "RedeclarationAsVariable",
+                 "UndefinedVariable", "NotAVariable"])
+    badpos = []
+    nnamed = 0
+    for i in range(len(docs)):
+        errs = read_errors(impl[i]) or []
+        if not errs:
+            continue
+        b = texts[i].encode()
+        for s_, e_, m in errs:
+            if m[0] in named:
+                nnamed += 1
+                if b[s_:e_] != m[1].encode():
+                    badpos.append((i, s_, e_, m))
+            elif m[0] == "MainMustNotHaveParameters":
+                nnamed += 1
+                if b[s_:e_] != b"main":
+                    badpos.append((i, s_, e_, m))
+    print("name-carrying diagnostics: %d, not covering exactly the quoted name: %d" % (nnamed, len(badpos)))
+    for i, s_, e_, m in sorted(badpos, key=lambda x: len(texts[x[0]]))[:args.show]:
+        print("  BADPOS %r %s at %d..%d = %r" % (texts[i], m, s_, e_, texts[i].encode()[s_:e_]))
 
     for i in sorted(panics, key=lambda i: len(texts[i]))[:args.show]:
         print("  PANIC %s %r" % (docs[i][0], texts[i]))
